@@ -735,7 +735,6 @@ func VerifC10MsgUnknownKept() {
 		return
 	}
 	vAssume(c10HasUnknown(recs, spec.known...))
-	vReach("accept-with-unknown")
 	extra0 := append([]byte{}, spec.extra(m)...)
 	var w1 bytes.Buffer
 	vAssert(m.Encode(&w1, 0) == nil, "a decoded message re-encodes")
